@@ -171,7 +171,7 @@ class Batcher:
         """
 
         samples = len(self.data[0]) if isinstance(self.data, tuple) else len(self.data)
-        return math.ceil(samples / self.batch_size)
+        return -(-samples // self.batch_size)  # exact integer ceil (float division loses precision above 2**53)
 
     def __getitem__(self, item) -> Union[Sequence[Any], Tuple[Sequence[Any], ...]]:
         """
